@@ -338,11 +338,11 @@ def r8(ctx, prog):
 
 def run(ctx):
     prog = extract('ALL' if ctx.tier == 'thorough' else scope_units())
-    r1(ctx, prog)
-    r2(ctx, prog)
-    r3(ctx, prog)
-    r4(ctx, prog)
-    r5_r6(ctx, prog)
-    r7(ctx, prog)
-    r8(ctx, prog)
+    ctx.guard(r1, ctx, prog)
+    ctx.guard(r2, ctx, prog)
+    ctx.guard(r3, ctx, prog)
+    ctx.guard(r4, ctx, prog)
+    ctx.guard(r5_r6, ctx, prog)
+    ctx.guard(r7, ctx, prog)
+    ctx.guard(r8, ctx, prog)
     return prog
